@@ -58,6 +58,8 @@ class StackGen:
         if focus in ("reject", "all"):
             for cap in (2 ** 61 - 1, 2 ** 61, 2 ** 62, 2 ** 63, 2 ** 64 - 1):
                 out.append([f"new cap={cap} exp=2", "push 1", "destroy"])
+            for cap, ex in ((1, 2 ** 61), (1, 2 ** 63), (2, 2 ** 60), (1, 2 ** 64)):
+                out.append([f"new cap={cap} exp={ex}"] + [f"push {i}" for i in range(1, cap + 3)] + ["pop", "push 9", "destroy"])
         out.append(["new cap=2", "push 1", "push 2", "push 3", "mk_filter to=1", "destroy_cb"])
         return out
 
